@@ -331,3 +331,93 @@ Proof.
   etransitivity; [apply wrap_list_height|]. apply le_n_S. etransitivity; [apply heights_repeat|]. vm_compute. lia.
 Qed.
 
+(* ---- the same after a `return` inside a function ---- *)
+Definition ret_stmt : stmt := SIf (probe "c" 1) [SReturn None] [].
+Definition ret_prog (n : nat) : list stmt := [SFunctionDef "f" 1 no_args (ret_stmt :: marks n) []].
+
+Lemma lower_marks_transparent cfg c : transparent (c_nsp c) -> forall n p br i,
+  lower_block cfg (fun c0 p0 s0 => lower_stmt cfg c0 p0 s0) c p br i (marks n) = inl (repeat (probe "m" 0) n).
+Proof.
+  intros Ht. induction n as [|n IH]; intros p br i; [reflexivity|].
+  cbn [marks repeat lower_block]. fold (marks n).
+  assert (E : lower_stmt cfg c (i :: br :: p) (SExpr (probe "m" 0)) = inl [probe "m" 0]).
+  { cbn [lower_stmt]. rewrite KSim.tr_probe by exact Ht. reflexivity. }
+  rewrite E. cbn [rbind is_interrupt].
+  destruct n as [|n']; [reflexivity|].
+  change (marks (S n')) with (SExpr (probe "m" 0) :: marks n') in *. rewrite (IH p br (S i)). cbn [rbind].
+  unfold guard_of. destruct (c_loops c) as [|l ls]; [|reflexivity].
+  destruct (n_kind (c_nsp c)); reflexivity.
+Qed.
+
+Definition ret_out (rest : list expr) : expr :=
+  NamedExpr "f"
+    (Lambda [] [] None [] [] None []
+       (Subscript
+          (EList
+             [NamedExpr "__ol_retv_1" cnone;
+              NamedExpr "__ol_ret_1" cfalse;
+              IfExp (probe "c" 1) (EList [NamedExpr "__ol_ret_1" ctrue]) ellipsis;
+              guarded cfg_list "__ol_ret_1" rest;
+              Name "__ol_retv_1"])
+          minus1)).
+
+Lemma lower_ret_def g fn n :
+  n_kind g = NGlobal -> find_inner g "f" 1 = Some fn -> n_kind fn = NFunction -> n_id fn = 1 -> transparent fn ->
+  n_zero_super fn = false -> n_inner_nonlocal fn = [] -> n_is_method fn = false -> set_params fn [] = fn ->
+  lower_stmt cfg_list (mkCtx g [] false) [0; 0] (SFunctionDef "f" 1 no_args (ret_stmt :: marks (S n)) []) =
+  inl [ret_out (repeat (probe "m" 0) (S n))].
+Proof.
+  intros Hk Hf Hfk Hid Ht Hz Hin Him Hsp.
+  assert (HU : uses_flag has_ret (ret_stmt :: marks (S n)) = true) by reflexivity.
+  cbn [lower_stmt c_nsp]. rewrite Hf, Hfk. cbn [no_args a_defaults a_kw_defaults a_posonly a_args a_vararg a_kwonly a_kwarg rmap rbind ret app].
+  rewrite HU, Hsp. cbn [lower_block].
+  match goal with |- context [lower_block cfg_list _ ?c _ _ _ (marks (S n))] =>
+    rewrite (lower_marks_transparent cfg_list c Ht (S n)) end.
+  match goal with |- context [lower_stmt cfg_list ?c ?p ret_stmt] =>
+    assert (E : lower_stmt cfg_list c p ret_stmt =
+                inl [IfExp (probe "c" 1) (EList [NamedExpr "__ol_ret_1" ctrue]) ellipsis])
+  end.
+  { unfold ret_stmt. cbn [lower_stmt lower_block c_nsp c_loops c_ret_used rbind ret is_interrupt]. rewrite Hfk.
+    rewrite KSim.tr_probe by exact Ht. cbn [rbind ret rev map flat_map app]. rewrite Hid. reflexivity. }
+  rewrite E. cbn [rbind ret is_interrupt].
+  unfold guard_of. cbn [c_loops c_nsp]. rewrite Hfk. cbn [has_ret ret_stmt].
+  cbn [is_interrupt marks repeat ex_live has_ret orb rbind ret rev]. fold (repeat (probe "m" 0) n).
+  rewrite Hz, Hin, Hid, Him. cbn [andb hook_wrap]. unfold hook_wrap. cbn [andb].
+  unfold get_assign. rewrite Hk. reflexivity.
+Qed.
+
+Lemma lower_ret_prog n :
+  lower_module cfg_list fun_symtab (ret_prog (S n)) = inl (ret_out (repeat (probe "m" 0) (S n))).
+Proof.
+  unfold lower_module. destruct fun_nsp as [g [fn [Hg [Hk [Hfind [Hfk [Hfid [Hft [Hzs [Hin [Him Hsp]]]]]]]]]]].
+  cbn [cfg_list cfg_host_lt_312]. rewrite Hg. cbn [rbind]. fold cfg_list.
+  unfold ret_prog. cbn [lower_block].
+  rewrite (lower_ret_def g fn n Hk Hfind Hfk Hfid Hft Hzs Hin Him Hsp). cbn [rbind is_interrupt ret].
+  cbn [existsb visits orb].
+  assert (HB : forall f, (forall e, f (SExpr e) = false) -> f ret_stmt = false -> f (SReturn None) = false ->
+                ex_live (visits f) (ret_stmt :: marks (S n)) = false).
+  { intros f H1 H2 H3. cbn [ex_live visits ret_stmt is_interrupt orb]. unfold ret_stmt in H2. rewrite H2, H3. cbn [orb].
+    apply marks_not_visited. exact H1. }
+  rewrite !HB by (first [intros e; reflexivity|reflexivity]).
+  reflexivity.
+Qed.
+
+Lemma ret_out_height rest : heights rest <= 2 -> height (ret_out rest) <= 8.
+Proof.
+  intros H. pose proof (wrap_list_height rest) as W.
+  unfold ret_out, guarded, probe, call, cfalse, ctrue, cnone, ellipsis, minus1, cint.
+  remember (wrap cfg_list rest) as w eqn:Ew. clear Ew.
+  cbn [height].
+  assert (Hw : height w <= 3) by lia. clear W H. remember (height w) as hw eqn:E. clear E.
+  destruct hw as [|[|[|[|hw]]]]; [vm_compute; lia ..|lia].
+Qed.
+
+(* a `def` whose body is `if c(1): return` followed by n statements: height 8 for EVERY n *)
+Theorem returned_statements_height_list : forall n,
+  exists e, lower_module cfg_list fun_symtab (ret_prog n) = inl e /\ height e <= 8.
+Proof.
+  intros [|n].
+  - eexists. split; [vm_compute; reflexivity|]. vm_compute. lia.
+  - eexists. split; [apply lower_ret_prog|]. apply ret_out_height.
+    etransitivity; [apply heights_repeat|]. vm_compute. lia.
+Qed.
